@@ -21,6 +21,16 @@ var exactBoundFuncs = []string{
 	"parseFilterSection",
 	"parseFilterSection$1",
 	"planBlockFilterReads",
+	"blockFilterCursor.heldSection",
+}
+
+// linearAssumed: leaves taken as non-negative on entry to a decoder, with the
+// obligation that justifies it.
+var linearAssumed = map[string][]string{
+	// heldSection is entered only from filtersFor after validateFilterSection-ok
+	// for this very block (C19.R1 callers(...) obligation, C19.R5), and
+	// validateFilterSection rejects a negative size (C19.R4)
+	"blockFilterCursor.heldSection": {"p:block.BloomFilterSize@entry"},
 }
 
 type boundSink struct {
@@ -93,7 +103,7 @@ func linearSinks(e *linEnv, fn *ssa.Function) []boundSink {
 // c19R9: exact in-bounds proofs in the length-prefixed decoders.
 func c19R9(w *World, r *Report) {
 	const rule = "C19.R9"
-	r.rule(rule, "exact bounds in the length-prefixed decoders: for every slice expression, slice index and fixed-width decode, high ≤ len, low ≤ high, index < len and len ≥ width follow as linear consequences of the dominating comparisons, with loads resolved through the function's own stores (so a length checked before the cursor advances does not count for a slice taken after it)", 29)
+	r.rule(rule, "exact bounds in the length-prefixed decoders: for every slice expression, slice index and fixed-width decode, high ≤ len, low ≤ high, index < len and len ≥ width follow as linear consequences of the dominating comparisons, with loads resolved through the function's own stores (so a length checked before the cursor advances does not count for a slice taken after it)", 31)
 	debug := os.Getenv("BSCHECK_LINEAR_DEBUG") != ""
 	funcs := exactBoundFuncs
 	if debug {
@@ -114,6 +124,9 @@ func c19R9(w *World, r *Report) {
 			continue
 		}
 		e := newLinEnv(w, fn)
+		for _, l := range linearAssumed[name] {
+			e.nonneg[l] = true
+		}
 		count := map[string]int{}
 		for _, s := range linearSinks(e, fn) {
 			guards := e.guardsAt(s.in.Block())
